@@ -770,6 +770,10 @@ class Vector():
 					underlying = self._underlying
 				if target.nullable and not self._dtype.nullable:
 					self._dtype = self._dtype.with_nullable(True)
+			elif self._dtype is not None and not self._dtype.nullable:
+				# object column: every type is accepted, but None still makes it nullable
+				if any(val is None for val in new_values):
+					self._dtype = self._dtype.with_nullable(True)
 		# =====================================================================
 		# MUTATE — copy-on-write + fingerprint updates
 		# =====================================================================
